@@ -60,9 +60,13 @@ type verdict struct {
 	Panic string    `json:"panic,omitempty"`
 	Stack string    `json:"stack,omitempty"`
 	MS    int64     `json:"ms"`
+	CPUMS int64     `json:"cpu_ms"` // CPU time of the worker process spent on this input
 	// parent-side diagnostics
 	ExitCode int    `json:"exit_code,omitempty"`
 	Stderr   string `json:"stderr,omitempty"`
+	// Top is the innermost function of ogen (or of its YAML front end) on the
+	// panic / fatal stack, taken from the unclipped text.
+	Top string `json:"top,omitempty"`
 }
 
 // ---- the pipeline (runs in the worker, or directly inside the fuzz target) ----
@@ -83,7 +87,9 @@ func runPipeline(req request) (v verdict) {
 		if r := recover(); r != nil {
 			v.Class = "panic"
 			v.Panic = clip(fmt.Sprint(r), 600)
-			v.Stack = clip(string(debug.Stack()), 6000)
+			st := string(debug.Stack())
+			v.Top = topFrame(st, true)
+			v.Stack = clip(st, 6000)
 		}
 		v.MS = time.Since(start).Milliseconds()
 	}()
@@ -194,9 +200,16 @@ func rssBytes() int64 {
 	return pages * int64(os.Getpagesize())
 }
 
+func selfCPU() time.Duration {
+	var ru syscall.Rusage
+	if err := syscall.Getrusage(syscall.RUSAGE_SELF, &ru); err != nil {
+		return 0
+	}
+	return time.Duration(ru.Utime.Nano() + ru.Stime.Nano())
+}
+
 func workerMain() {
 	debug.SetMaxStack(maxStackBytes)
-	debug.SetTraceback("single")
 	go func() {
 		for {
 			time.Sleep(20 * time.Millisecond)
@@ -216,7 +229,9 @@ func workerMain() {
 				fmt.Fprintf(os.Stderr, "worker: bad request: %v\n", jerr)
 				os.Exit(98)
 			}
+			c0 := selfCPU()
 			v := runPipeline(req)
+			v.CPUMS = (selfCPU() - c0).Milliseconds()
 			b, _ := json.Marshal(v)
 			out.Write(b)
 			out.WriteByte('\n')
@@ -267,7 +282,7 @@ func startWorker() (*worker, error) {
 		return nil, err
 	}
 	cmd := exec.Command(exe, "-test.run", "^$")
-	cmd.Env = append(os.Environ(), "C11_WORKER=1", "GOTRACEBACK=single")
+	cmd.Env = append(os.Environ(), "C11_WORKER=1", "GOTRACEBACK=single", "GOMAXPROCS=2")
 	if dir := os.Getenv("VERIF_SCRATCH"); dir != "" {
 		cmd.Dir = dir
 	}
@@ -309,7 +324,7 @@ func (w *worker) kill() {
 }
 
 // run sends one request; alive=false means the worker is gone (died or was
-// killed by the watchdog) and must be replaced.
+// killed by the watchdog) and must be replaced. budget is CPU time.
 func (w *worker) run(req request, budget time.Duration) (v verdict, alive bool) {
 	b, _ := json.Marshal(req)
 	b = append(b, '\n')
@@ -319,37 +334,79 @@ func (w *worker) run(req request, budget time.Duration) (v verdict, alive bool) 
 		w.kill()
 		return verdict{Class: "died", Stage: "send", Stderr: clip(w.stderr.String(), 4000)}, false
 	}
-	timer := time.NewTimer(budget)
-	defer timer.Stop()
-	select {
-	case line, ok := <-w.lines:
-		if ok {
-			if err := json.Unmarshal(line, &v); err == nil {
-				return v, true
+	tick := time.NewTicker(200 * time.Millisecond)
+	defer tick.Stop()
+	cpu0 := cpuSeconds(w.cmd.Process.Pid)
+	lastCPU, lastProgress := 0.0, time.Now()
+	for {
+		select {
+		case line, ok := <-w.lines:
+			if ok {
+				if err := json.Unmarshal(line, &v); err == nil {
+					return v, true
+				}
+				w.kill()
+				return verdict{Class: "died", Stage: "protocol", Stderr: clip(string(line), 2000)}, false
 			}
+			// stdout closed: the process ended
+			_ = w.stdin.Close()
+			err := w.cmd.Wait()
+			code := -1
+			if ee, ok := err.(*exec.ExitError); ok {
+				code = ee.ExitCode()
+				if ws, ok := ee.Sys().(syscall.WaitStatus); ok && ws.Signaled() {
+					code = 128 + int(ws.Signal())
+				}
+			} else if err == nil {
+				code = 0
+			}
+			full := w.stderr.String()
+			return verdict{Class: "died", Stage: "run", ExitCode: code, Stderr: clip(full, 6000), Top: topFrame(full, false), MS: time.Since(start).Milliseconds()}, false
+		case <-tick.C:
+			// The budget is CPU time of the worker, so that a loaded machine cannot
+			// turn a slow input into a "hang"; a worker that makes no CPU progress at
+			// all for stallWall is reported as well (deadlock).
+			cpu := cpuSeconds(w.cmd.Process.Pid) - cpu0
+			if cpu > lastCPU+0.02 {
+				lastCPU, lastProgress = cpu, time.Now()
+			}
+			stalled := time.Since(lastProgress) > stallWall
+			if cpu < budget.Seconds() && !stalled {
+				continue
+			}
+			// ask the runtime for the stack of the running goroutine, then kill
+			_ = w.cmd.Process.Signal(syscall.SIGQUIT)
+			time.Sleep(300 * time.Millisecond)
 			w.kill()
-			return verdict{Class: "died", Stage: "protocol", Stderr: clip(string(line), 2000)}, false
-		}
-		// stdout closed: the process ended
-		_ = w.stdin.Close()
-		err := w.cmd.Wait()
-		code := -1
-		if ee, ok := err.(*exec.ExitError); ok {
-			code = ee.ExitCode()
-			if ws, ok := ee.Sys().(syscall.WaitStatus); ok && ws.Signaled() {
-				code = 128 + int(ws.Signal())
+			stage := "cpu-budget"
+			if stalled && cpu < budget.Seconds() {
+				stage = "stalled"
 			}
-		} else if err == nil {
-			code = 0
+			full := w.stderr.String()
+			return verdict{Class: "watchdog", Stage: stage, Stderr: clip(full, 6000), Top: topFrame(full, false), MS: time.Since(start).Milliseconds(), CPUMS: int64(cpu * 1000)}, false
 		}
-		return verdict{Class: "died", Stage: "run", ExitCode: code, Stderr: clip(w.stderr.String(), 6000), MS: time.Since(start).Milliseconds()}, false
-	case <-timer.C:
-		// ask the runtime for the stack of the running goroutine, then kill
-		_ = w.cmd.Process.Signal(syscall.SIGQUIT)
-		time.Sleep(300 * time.Millisecond)
-		w.kill()
-		return verdict{Class: "watchdog", Stage: "run", Stderr: clip(w.stderr.String(), 6000), MS: time.Since(start).Milliseconds()}, false
 	}
+}
+
+const stallWall = 180 * time.Second
+
+// cpuSeconds is utime+stime of a process (clock ticks are 1/100 s on Linux).
+func cpuSeconds(pid int) float64 {
+	b, err := os.ReadFile(fmt.Sprintf("/proc/%d/stat", pid))
+	if err != nil {
+		return 0
+	}
+	s := string(b)
+	if i := strings.LastIndexByte(s, ')'); i >= 0 {
+		s = s[i+1:]
+	}
+	f := strings.Fields(s)
+	if len(f) < 13 {
+		return 0
+	}
+	ut, _ := strconv.ParseFloat(f[11], 64)
+	st, _ := strconv.ParseFloat(f[12], 64)
+	return (ut + st) / 100
 }
 
 // pool hands out workers; a worker that died is replaced by a fresh one.
@@ -387,8 +444,8 @@ func (p *pool) closeAll() {
 	p.mu.Unlock()
 }
 
-// budgets (the property bounds time; typical is < 100 ms, the schema depth limit
-// makes 1000-deep nesting take tens of seconds, hence generous values).
+// budgets, in CPU seconds of the worker (the property bounds time; typical is
+// < 0.1 s, 1000-deep nesting takes tens of seconds, hence generous values).
 func firstBudget(size int) time.Duration {
 	return 60*time.Second + time.Duration(size/1024)*250*time.Millisecond
 }
